@@ -26,6 +26,8 @@ CTXA_MACROS = [
     ('lvi', 'legacy-verb'),             # pylatexenc-2 style \verb-like macro with a leading optional argument
     ('setx', 'after-delta'),            # no arguments; its spec returns a parsing-state delta for what follows
     ('lst', 'legacy-std:{*[{'),         # pylatexenc-2 spelling: args_parser=MacroStandardArgsParser('{*[{')
+    ('ltx', 'legacy-modes:{{:F-'),      # pylatexenc-2 spelling with args_math_mode=[False, None] (text-mode argument, then ordinary)
+    ('lmx', 'legacy-modes:{{:T-'),      # ... args_math_mode=[True, None]
 ]
 CTXA_ENVS = [
     ('ea', ['{']),
@@ -66,6 +68,10 @@ def ctx_a(with_unknown=True):
         if a == 'legacy-verb':
             macros.append(macrospec.MacroSpec(n, args_parser=macrospec.VerbatimArgsParser(
                 verbatim_arg_type='verb-macro', verbatim_argspec='[')))
+        elif isinstance(a, str) and a.startswith('legacy-modes:'):
+            _, spec, modes = a.split(':')
+            amm = [dict(F=False, T=True).get(ch) for ch in modes]
+            macros.append(macrospec.MacroSpec(n, args_parser=macrospec.MacroStandardArgsParser(spec, args_math_mode=amm)))
         elif isinstance(a, str) and a.startswith('legacy-std:'):
             macros.append(macrospec.MacroSpec(n, args_parser=macrospec.MacroStandardArgsParser(a.split(':', 1)[1])))
         elif a == 'after-delta':
